@@ -30,6 +30,7 @@ class Ctx(object):
         self.states = 0
         self.transitions = 0
         self.traces_validated = 0
+        self.replayed = 0           # TLC-generated states / edges / behaviours executed on the implementation and compared
         self.evaluations = 0
         self.nontrivial = set()
         self.samples = []
@@ -170,7 +171,9 @@ class Ctx(object):
         cov = {
             "states": self.states,
             "transitions": self.transitions,
-            "traces_validated_against_impl": self.traces_validated,
+            "traces_validated_against_impl": self.traces_validated + self.replayed,
+            "impl_traces_accepted_by_tlc": self.traces_validated,
+            "tlc_behaviours_replayed_on_impl": self.replayed,
             "samples": self.samples if self.samples else [{"note": "no sample recorded"}],
             "evaluations": self.evaluations,
             "distinct_nontrivial": len(self.nontrivial),
@@ -192,8 +195,8 @@ class Ctx(object):
         with open(os.path.join(VERIF, "evidence", "%s.json" % self.prop), "w") as f:
             json.dump(ev, f, indent=1, default=str)
         shutil.rmtree(self.work, ignore_errors=True)
-        print("%s %s: states=%d transitions=%d traces=%d cases=%d distinct=%d known=%d violations=%d wall=%.1fs"
-              % (self.prop, self.tier, self.states, self.transitions, self.traces_validated, self.evaluations,
+        print("%s %s: states=%d transitions=%d traces=%d replayed=%d cases=%d distinct=%d known=%d violations=%d wall=%.1fs"
+              % (self.prop, self.tier, self.states, self.transitions, self.traces_validated, self.replayed, self.evaluations,
                  len(self.nontrivial), len(self.known_hit), len(self.violations), wall))
         return 1 if self.violations else 0
 
